@@ -1,0 +1,34 @@
+//go:build !js && verif
+
+package websocket
+
+import "strings"
+
+// SimYield and SimNote are set by the deterministic simulator of the
+// verification harness. They are only compiled in with the verif build tag.
+//
+// SimYield is called at points where another goroutine may usefully be
+// scheduled (it may park the caller); SimNote only reports an event.
+var (
+	SimYield func(point string, c *Conn)
+	SimNote  func(point string, c *Conn)
+)
+
+func simYield(point string, c *Conn) {
+	f := SimYield
+	if f == nil {
+		return
+	}
+	// Once the connection is closed mu.lock takes a runtime-random path through
+	// its select, so the mu.* points stay inert to keep simulations replayable.
+	if strings.HasPrefix(point, "mu.") && c.isClosed() {
+		return
+	}
+	f(point, c)
+}
+
+func simNote(point string, c *Conn) {
+	if f := SimNote; f != nil {
+		f(point, c)
+	}
+}
